@@ -95,13 +95,17 @@ CLAIMED = {
  "C04": dict(text="No spurious diagnostics: Coq theorem C04_every_diagnostic_is_due proves for every annotated graph that each of the eleven lints' "
                   "diagnostics is DUE: its trigger condition (LintSpec.trig, stated over the liveness/value facts and register-class tables) holds at "
                   "the reported node - so a program whose facts meet no trigger gets none; C04_clean_facts_no_diags proves that facts meeting the "
-                  "convention-level cleanliness conditions give an empty report. Tied to lints/*.rs and manager.rs by comparing the full diagnostic "
+                  "convention-level cleanliness conditions give an empty report. Props/C04sem.v joins this with C01 on the ISA machine for the stack diagnostics: "
+                  "whenever 'stack pointer above its entry value' or 'stack access at or above the entry stack pointer' is reported (on any graph satisfying the C01 premises, and on every "
+                  "pipeline output), EVERY execution that steps out of the reported node really has sp = entry sp + off with off > 0, resp. accesses entry sp + (off+off2) with off+off2 >= 0 "
+                  "(C04sem_positive_sp_is_real, C04sem_stack_offset_usage_is_real), hence a program none of whose executions ever raises sp above its entry value gets no such diagnostic "
+                  "(C04sem_conforming_sp_no_position_diag; its premise 'the reported node is executed' is shown necessary by a computed program). Tied to lints/*.rs and manager.rs by comparing the full diagnostic "
                   "list (kind, location, related) of implementation and model. The property itself is explored on programs generated "
                   "conforming-by-construction (acyclic call graphs, wrappers, nested branches/loops, calls and ecalls inside function bodies, early returns, frames incl. frame pointers, saved registers, random "
                   "spelling/layout), each confirmed by a concrete run under a convention monitor, which must get zero diagnostics.",
-             design="8/C04", note=NOTE + "The step 'a convention-conforming program has clean facts' is not a theorem (it needs a semantic definition of conformance "
-                  "over executions); it is covered by the monitored generator.",
-             technique="Coq proof (each diagnostic implies its trigger) + differential correspondence + monitored conforming-program generator"),
+             design="8/C04", note=NOTE + "The step 'a convention-conforming program has clean facts' is a theorem over executions for the two definite stack diagnostics only (C04sem); "
+                  "for the other kinds it is covered by the monitored generator.",
+             technique="Coq proof (each diagnostic implies its trigger; definite stack diagnostics are true of every execution) + differential correspondence + monitored conforming-program generator"),
  "C05": dict(text="Violations are reported where they occur: Coq theorems prove for every annotated graph that each node meeting a lint's trigger "
                   "condition is reported by that lint at that node's location (C05_triggers_are_reported), that the stack lint reports the first node with a "
                   "bad stack position, and that the use-after-call / use-before-assignment searches report the FIRST reads of the offending register "
